@@ -95,11 +95,13 @@ def _items():
     add('sym_len_lo',
         'pub fn sym_len_lo() -> usize { 2 }\n',
         'pub uninterp spec fn SYM_LEN_LO() -> usize;\n#[verifier::external_body]\n'
-        'pub fn sym_len_lo() -> (r: usize) ensures r == SYM_LEN_LO() { 2 }\n')
+        'pub fn sym_len_lo() -> (r: usize) ensures r == SYM_LEN_LO() { 2 }\n',
+        'pub static mut SYM_LEN_LO: usize = 2;\npub fn sym_len_lo() -> usize { unsafe { SYM_LEN_LO } }\n')
     add('sym_len_hi',
         'pub fn sym_len_hi() -> usize { 8 }\n',
         'pub uninterp spec fn SYM_LEN_HI() -> usize;\n#[verifier::external_body]\n'
-        'pub fn sym_len_hi() -> (r: usize) ensures r == SYM_LEN_HI() { 8 }\n')
+        'pub fn sym_len_hi() -> (r: usize) ensures r == SYM_LEN_HI() { 8 }\n',
+        'pub static mut SYM_LEN_HI: usize = 8;\npub fn sym_len_hi() -> usize { unsafe { SYM_LEN_HI } }\n')
     add('K_LEN', 'pub const K_LEN: usize = 5;\n', 'pub const K_LEN: usize = 5;\n')
     # ---- "any" family: generic and concrete custom functions
     add('san_vec',
